@@ -2132,6 +2132,13 @@ class TLSConnection(TLSRecordLayer):
         if certificateRequest and privateKey:
             valid_sig_algs = self._sigHashesToList(settings, privateKey,
                                                    clientCertChain)
+            if self.version == (3, 3) and not valid_sig_algs:
+                # e.g. only RSA-PSS with SHA-512 enabled and a 1024 bit key
+                for result in self._sendError(
+                        AlertDescription.handshake_failure,
+                        "No enabled signature algorithm is usable with "
+                        "the client key"):
+                    yield result
             try:
                 certificateVerify = KeyExchange.makeCertificateVerify(
                     self.version,
